@@ -700,6 +700,40 @@ func (w *World) Files(oc *OutputCfg, ww *WeatherWorld) FileSet {
 	if w.Cfg.Preco {
 		fs["weather/wx/preco.txt"] = precoFile(w.eol())
 	}
+	if w.Alt != 0 && ww != nil {
+		ra := NewRNG(w.Alt)
+		// second weather folder: another series, same station code and period, own correction factors
+		ws2 := w.Weather
+		ws2.Sub = ra.U64()
+		ww2 := BuildWeather(&ws2, w.Cfg.NoneValue, false)
+		for name, content := range ww2.Files(w.Cfg.WeatherLayout, w.Cfg.NumHeader, w.FCode, w.eol(), ww.Spec.FirstDay, ww.Spec.LastDay, nil, ";") {
+			fs["weather/wx2/"+name] = content
+		}
+		var b strings.Builder
+		b.WriteString("Mo Corr" + w.eol())
+		for i := 0; i < 12; i++ {
+			fmt.Fprintf(&b, "%2d %4.2f%s", i+1, 1.01+0.02*float64((i*5+int(w.Alt%7))%12), w.eol())
+		}
+		fs["weather/wx2/preco.txt"] = b.String()
+		// second set of project files under the extension "alt"
+		w2 := *w
+		w2.Auto = genAutoLines(ra.Sub("auto", 0), w)
+		if !w2.autoValid() {
+			w2.Auto = append([]AutoLine{}, w.Auto...)
+			for i := range w2.Auto {
+				// other irrigation and N settings, same windows
+				w2.Auto[i].IrrMax = 5 + (w2.Auto[i].IrrMax+15)%50
+				w2.Auto[i].IrrLow = 40 + (w2.Auto[i].IrrLow+10)%30
+				w2.Auto[i].NDem1 = (w2.Auto[i].NDem1 + 60) % 180
+			}
+		}
+		w2.GWHi, w2.GWLo = max(1, w.GWHi-2), w.GWLo+3
+		w2.IrrOn = !w.IrrOn
+		_, c := w.RotationFile()
+		fs[pdir+"crop_"+w.Loc+".alt"] = c
+		fs[pdir+"automan.alt"] = w2.AutoFile()
+		fs[pdir+"poly_"+w.Loc+".alt"] = w2.PolyFile()
+	}
 	if w.BadEnt && ww != nil && w.earlyFieldDays() > 0 {
 		// a series that begins on this field's first simulated day: it covers the field, but not the field that starts earlier
 		for name, content := range ww.Files(w.Cfg.WeatherLayout, w.Cfg.NumHeader, w.FCode+"late", w.eol(), w.Start(), ww.Spec.LastDay, nil, ";") {
